@@ -128,6 +128,9 @@ def evaluate(case, out):
             asr[f"{c} v ? elim {' '.join(sorted(E))}"] = {"winner": c, "loser": "?", "proved": p}
         target = {"choice_function": "IRV", "n_winners": 1, "winner": [case["winner"]],
                   "candidates": list(cands), "assertions": asr, "assertion_json": js}
+        if not nen and neb and len(neb) % 2 == 1:
+            del target["assertion_json"]   # a log written for a non-IRV style audit: winner/loser come from the assertions
+            out.cls("log-without-assertion_json")
         contests_in_log = {"339": target}
         explicit = len(js) % 2 == 0
         if len(cands) >= 3:
